@@ -42,13 +42,18 @@ theorem imsaak_follows_fajr_offset (p : Params α) :
   unfold imsaakParams1
   split <;> [skip; split] <;> simp
 
-/-- **an Imsaak interval (no Fajr interval) makes Imsaak = Fajr − interval**: same hours, Fajr offset reduced by the interval -/
+/-- **an Imsaak interval (no Fajr interval)**: Imsaak is computed as a Fajr with the SAME hours
+    (`hours_ignore_offsets`) and Fajr's minute offset reduced by the interval - a statement about the
+    parameter set `get_imsaak` runs with; that a minute offset moves the clock time by that many
+    minutes is `offset_moves_clock` (whole minutes) -/
 theorem imsaak_interval (p : Params α) (hF : nonZero p.intFajr = false) (hI : nonZero p.intImsaak = true) :
     imsaakParams1 p = { p with minFajr := p.minFajr - p.intImsaak } := by
   simp [imsaakParams1, hF, hI]
 
-/-- **when Fajr is extreme, Imsaak is the extreme Fajr with its offset reduced by the Imsaak
-    interval, or by 1.5 minutes if none is set** -/
+/-- **when Fajr is extreme** the parameter set Imsaak is recomputed with is the caller's with Fajr's
+    offset reduced by the Imsaak interval, or by 1.5 minutes if none is set (parameter-level
+    statement; `imsaak_extreme_branch` says that this set is the one used, `imsaak_extreme_is_flagged`
+    that the result carries the flag) -/
 theorem imsaak_when_fajr_extreme (p : Params α) (hI : Sc.eqb p.intImsaak 0.0 = true) :
     imsaakParams2 p = { p with minFajr := p.minFajr - Gen.DEF_IMSAAK_ANGLE } ∧
     (Gen.DEF_IMSAAK_ANGLE : α) = 1.5 := by
@@ -102,26 +107,83 @@ theorem isha_fajr_interval (p : Params α) (hours : Hours α) (env : Env α) (h1
   · intro hz; rw [hi, intIshaOut_active p h1 hE (by simp [hz])]
   · intro hz; rw [hf, intFajrOut_active p h1 hE (by simp [hz])]
 
-/-- **changing the Asr school changes only Asr** -/
+/-- **changing the Asr school changes only Asr** - among the six computed hours of `getHours`;
+    `asr_school_only_asr_reported` carries it to the reported hours under policy None -/
 theorem asr_school_only_asr (p : Params α) (a : AsrRatio) (t : TopAstroDay α) (w : Weather α) :
     let h := getHours p t w
     let h' := getHours { p with asr := a } t w
     h'.fajr = h.fajr ∧ h'.shur = h.shur ∧ h'.dhuhr = h.dhuhr ∧ h'.magh = h.magh ∧ h'.isha = h.isha :=
   ⟨rfl, rfl, rfl, rfl, rfl⟩
 
-/-- **the Fajr angle changes only Fajr (and Imsaak, which is a Fajr)** -/
+/-- **the Fajr angle changes only Fajr (and Imsaak, which is a Fajr)** - among the six computed hours
+    of `getHours`; `fajr_angle_only_fajr_reported` carries it to the reported hours under policy
+    None.  Under a replacing policy the claim does not lift: which entries a policy rewrites
+    depends on which hours exist (DESIGN 14.3.13 is the reading the falsifier uses there). -/
 theorem fajr_angle_only_fajr (p : Params α) (x : α) (t : TopAstroDay α) (w : Weather α) :
     let h := getHours p t w
     let h' := getHours { p with angFajr := x } t w
     h'.shur = h.shur ∧ h'.dhuhr = h.dhuhr ∧ h'.asr = h.asr ∧ h'.magh = h.magh ∧ h'.isha = h.isha :=
   ⟨rfl, rfl, rfl, rfl, rfl⟩
 
-/-- **the Isha angle changes only Isha** -/
+/-- **the Isha angle changes only Isha** - among the six computed hours of `getHours`;
+    `isha_angle_only_isha_reported` carries it to the reported hours under policy None -/
 theorem isha_angle_only_isha (p : Params α) (x : α) (t : TopAstroDay α) (w : Weather α) :
     let h := getHours p t w
     let h' := getHours { p with angIsha := x } t w
     h'.fajr = h.fajr ∧ h'.shur = h.shur ∧ h'.dhuhr = h.dhuhr ∧ h'.asr = h.asr ∧ h'.magh = h.magh :=
   ⟨rfl, rfl, rfl, rfl, rfl⟩
+
+
+/-- under policy None the reported hours are the computed ones after the interval pass -/
+theorem none_policy_eq (p : Params α) (t : TopAstroDay α) (w : Weather α) (hp : p.policy = .None) :
+    getHoursAdjExt p t w = adjForInt p (getHours p t w).toPH := by
+  simp [getHoursAdjExt, adjForExtLat, applyPolicy, canAdj, hp, Policy.isNone]
+
+/-- **reported hours, policy None: the Fajr angle changes only Fajr** (intervals allowed: an
+    interval-defined Isha is Maghrib + interval and does not read the Fajr angle either) -/
+theorem fajr_angle_only_fajr_reported (p : Params α) (x : α) (t : TopAstroDay α) (w : Weather α) (r r' : PHours α)
+    (hp : p.policy = .None) (hr : getHoursAdjExt p t w = .ok r)
+    (hr' : getHoursAdjExt { p with angFajr := x } t w = .ok r') :
+    r'.shur = r.shur ∧ r'.dhuhr = r.dhuhr ∧ r'.asr = r.asr ∧ r'.magh = r.magh ∧ r'.isha = r.isha := by
+  have hg : Gen.intFlagRead = .mapOrFalse := by decide
+  rw [none_policy_eq p t w hp] at hr
+  rw [none_policy_eq _ t w (by simpa using hp)] at hr'
+  have o := adjForInt_others _ _ _ hr
+  have o' := adjForInt_others _ _ _ hr'
+  have i := (adjForInt_out _ _ _ hg hr).2
+  have i' := (adjForInt_out _ _ _ hg hr').2
+  refine ⟨by rw [o'.1, o.1]; rfl, by rw [o'.2.1, o.2.1]; rfl, by rw [o'.2.2.1, o.2.2.1]; rfl,
+    by rw [o'.2.2.2, o.2.2.2]; rfl, by rw [i', i]; rfl⟩
+
+/-- **reported hours, policy None: the Isha angle changes only Isha** -/
+theorem isha_angle_only_isha_reported (p : Params α) (x : α) (t : TopAstroDay α) (w : Weather α) (r r' : PHours α)
+    (hp : p.policy = .None) (hr : getHoursAdjExt p t w = .ok r)
+    (hr' : getHoursAdjExt { p with angIsha := x } t w = .ok r') :
+    r'.fajr = r.fajr ∧ r'.shur = r.shur ∧ r'.dhuhr = r.dhuhr ∧ r'.asr = r.asr ∧ r'.magh = r.magh := by
+  have hg : Gen.intFlagRead = .mapOrFalse := by decide
+  rw [none_policy_eq p t w hp] at hr
+  rw [none_policy_eq _ t w (by simpa using hp)] at hr'
+  have o := adjForInt_others _ _ _ hr
+  have o' := adjForInt_others _ _ _ hr'
+  have f := (adjForInt_out _ _ _ hg hr).1
+  have f' := (adjForInt_out _ _ _ hg hr').1
+  refine ⟨by rw [f', f]; rfl, by rw [o'.1, o.1]; rfl, by rw [o'.2.1, o.2.1]; rfl, by rw [o'.2.2.1, o.2.2.1]; rfl,
+    by rw [o'.2.2.2, o.2.2.2]; rfl⟩
+
+/-- **reported hours, policy None: the Asr school changes only Asr** -/
+theorem asr_school_only_asr_reported (p : Params α) (a : AsrRatio) (t : TopAstroDay α) (w : Weather α) (r r' : PHours α)
+    (hp : p.policy = .None) (hr : getHoursAdjExt p t w = .ok r)
+    (hr' : getHoursAdjExt { p with asr := a } t w = .ok r') :
+    r'.fajr = r.fajr ∧ r'.shur = r.shur ∧ r'.dhuhr = r.dhuhr ∧ r'.magh = r.magh ∧ r'.isha = r.isha := by
+  have hg : Gen.intFlagRead = .mapOrFalse := by decide
+  rw [none_policy_eq p t w hp] at hr
+  rw [none_policy_eq _ t w (by simpa using hp)] at hr'
+  have o := adjForInt_others _ _ _ hr
+  have o' := adjForInt_others _ _ _ hr'
+  have fi := adjForInt_out _ _ _ hg hr
+  have fi' := adjForInt_out _ _ _ hg hr'
+  refine ⟨by rw [fi'.1, fi.1]; rfl, by rw [o'.1, o.1]; rfl, by rw [o'.2.1, o.2.1]; rfl,
+    by rw [o'.2.2.2, o.2.2.2]; rfl, by rw [fi'.2, fi.2]; rfl⟩
 
 /-- **weather changes only Shurooq and Maghrib** among the six computed hours -/
 theorem weather_only_riseset (p : Params α) (t : TopAstroDay α) (w w' : Weather α) :
